@@ -1,7 +1,7 @@
 // Command c03 builds unvalidated geometries on dense integer grids (property C03), runs the
 // implementation's validation entry points on each and prints one case per line:
 //
-//	id <TAB> class <TAB> group <TAB> variant <TAB> geometry <TAB> observations
+//	id <TAB> class <TAB> group <TAB> variant <TAB> geometry <TAB> observations <TAB> base geometry of the group
 //
 // A group is one generated geometry followed by other representations of the same point set /
 // structure (every ring started at another vertex, rings reversed, holes and members permuted,
@@ -432,6 +432,10 @@ func genPoly(r *lib.Rng) *node {
 		default:
 			ring = genTri(r, lo, hi)
 		}
+		if r.Chance(1, 8) {
+			// a hole entirely outside the shell (any position among the holes)
+			ring = shift(ring, float64(side+1+r.Intn(2)), float64(r.Range(-1, 1)))
+		}
 		if r.Chance(1, 10) && len(n.rings) > 1 {
 			// share a vertex with an earlier hole
 			prev := n.rings[r.Range(1, len(n.rings)-1)]
@@ -499,6 +503,20 @@ func genSharedVertex(r *lib.Rng) *node {
 	if b == nil {
 		b = genTri(r, 1, side-1)
 	}
+	if r.Chance(1, 5) {
+		// fan: three holes through one vertex, in disjoint sectors most of the time
+		c := xy{float64(side / 2), float64(side / 2)}
+		n := &node{kind: "Y", rings: [][]xy{genBox(0, 0, side, side)}}
+		dirs := [][2]xy{{{1, 0}, {1, 1}}, {{0, 1}, {-1, 1}}, {{-1, 0}, {-1, -1}}, {{0, -1}, {1, -1}}, {{1, 1}, {0, 1}}}
+		start := r.Intn(len(dirs))
+		for k := 0; k < 3; k++ {
+			d := dirs[(start+k*r.Range(1, 2))%len(dirs)]
+			m := float64(r.Range(1, side/2-1))
+			t := []xy{c, {c.x + m*d[0].x, c.y + m*d[0].y}, {c.x + m*d[1].x, c.y + m*d[1].y}, c}
+			n.rings = append(n.rings, rotateRing(t, r.Intn(3)))
+		}
+		return n
+	}
 	n := &node{kind: "Y"}
 	n.rings = append(n.rings, genBox(0, 0, side, side))
 	ra := rotateRing(a, r.Intn(len(a)-1))
@@ -560,7 +578,7 @@ func genMultiPoly(r *lib.Rng) *node {
 // touch graph is an induced grid graph plus the shell: chains from shell to shell and 2x2 blocks
 // disconnect the interior; everything else is valid.
 func genTouchGraph(r *lib.Rng) *node {
-	side := 2 * r.Range(2, 4)
+	side := 2 * r.Range(2, 5)
 	wide := r.Bool() // a shell the diamonds cannot reach
 	shell := genBox(0, 0, side, side)
 	if wide {
@@ -569,13 +587,28 @@ func genTouchGraph(r *lib.Rng) *node {
 	n := &node{kind: "Y", rings: [][]xy{rotateRing(shell, r.Intn(4))}}
 	m := side / 2
 	den := r.Range(2, 4)
+	// forced clusters (several connected components of the touch graph): a 2x2 block (a cycle),
+	// a touching pair (no cycle), at random places
+	forced := map[[2]int]bool{}
+	if m >= 3 && r.Chance(1, 2) {
+		bi, bj := r.Intn(m-1), r.Intn(m-1)
+		if r.Chance(2, 3) {
+			for _, d := range [][2]int{{0, 0}, {1, 0}, {0, 1}, {1, 1}} {
+				forced[[2]int{bi + d[0], bj + d[1]}] = true
+			}
+		}
+		pi, pj := r.Intn(m-1), r.Intn(m)
+		forced[[2]int{pi, pj}] = true
+		forced[[2]int{pi + 1, pj}] = true
+		den = 6
+	}
 	for i := 0; i < m; i++ {
 		for j := 0; j < m; j++ {
 			corner := (i == 0 || i == m-1) && (j == 0 || j == m-1)
 			if corner && !wide && r.Chance(9, 10) {
 				continue // a corner diamond touches the tight shell twice
 			}
-			if len(n.rings) < 8 && r.Chance(1, den) {
+			if len(n.rings) < 9 && (forced[[2]int{i, j}] || r.Chance(1, den)) {
 				cx, cy := float64(2*i+1), float64(2*j+1)
 				d := []xy{{cx - 1, cy}, {cx, cy - 1}, {cx + 1, cy}, {cx, cy + 1}, {cx - 1, cy}}
 				if r.Chance(1, 10) { // a kite that does not reach its left neighbour
@@ -798,6 +831,30 @@ func variants(base *node, r *lib.Rng, maxRot int) []variant {
 		c2.walk(func(ps *[]xy, _ bool) { *ps = reversed(*ps) })
 		out = append(out, variant{"revall", c2})
 	}
+	// repeated vertices: the first vertex of every list twice; one random vertex of one list
+	// three times (consecutive repeats do not change the curve)
+	if nlists > 0 {
+		c := base.clone()
+		c.walk(func(ps *[]xy, isRing bool) {
+			if len(*ps) >= 2 {
+				*ps = append([]xy{(*ps)[0]}, *ps...)
+			}
+		})
+		out = append(out, variant{"dupstart", c})
+		which := r.Intn(nlists)
+		c2 := base.clone()
+		i := 0
+		c2.walk(func(ps *[]xy, isRing bool) {
+			if i == which && len(*ps) >= 2 {
+				k := r.Intn(len(*ps))
+				q := append([]xy(nil), (*ps)[:k+1]...)
+				q = append(q, (*ps)[k], (*ps)[k])
+				*ps = append(q, (*ps)[k+1:]...)
+			}
+			i++
+		})
+		out = append(out, variant{"dup", c2})
+	}
 	// holes / members permuted
 	{
 		c := base.clone()
@@ -878,9 +935,25 @@ func main() {
 	if a.Tier == "thorough" {
 		maxRot = 40
 	}
+	// every line carries the base geometry of its group and the base verdicts (bval, bsimple,
+	// bring), so that a single line is a complete replay of a representation-independence failure
+	baseObs, baseText := map[string]string{}, ""
 	emit := func(group int, k int, class, vname string, n *node) {
 		obs := observe(n)
-		fmt.Fprintf(w, "%d.%d\t%s\t%d\t%s\t%s\t%s\n", group, k, class, group, vname, n.String(), obs)
+		if k == 0 {
+			baseText = n.String()
+			baseObs = map[string]string{}
+			for _, kv := range strings.Fields(obs) {
+				if i := strings.IndexByte(kv, '='); i > 0 {
+					baseObs[kv[:i]] = kv[i+1:]
+				}
+			}
+		}
+		obs += " bval=" + baseObs["val"]
+		if v, ok := baseObs["simple"]; ok {
+			obs += " bsimple=" + v + " bring=" + baseObs["ring"]
+		}
+		fmt.Fprintf(w, "%d.%d\t%s\t%d\t%s\t%s\t%s\t%s\n", group, k, class, group, vname, n.String(), obs, baseText)
 		lines++
 		variantsHist[vname]++
 		kinds[n.kind]++
